@@ -50,11 +50,22 @@ Section Sem.
     if Nat.eqb (length row) (length bias) then Some (map gelu_spec (map2 (fadd o) row bias)) else None.
 End Sem.
 
-(* BiasGeluFusion.check: approximate attribute of the Gelu node; rank of bias (None = unknown) *)
+(* BiasGeluFusion.check (since fix 08...: the last-dimension test; before it only approximate and the rank of bias):
+     approximate == "tanh" -> fail;  bias not known to be 1-D -> fail;
+     input shape unknown or rank 0 -> fail;  input.shape[-1] and bias.shape[0] not provably equal -> fail.
+   Shapes: None = unknown; dims are integers (the harness encodes a named symbolic dim as a distinct negative number,
+   an unnamed one is never generated). *)
+From Coq Require Import ZArith.
 Inductive approx := ApproxAbsent | ApproxNone | ApproxTanh.
-Definition bias_gelu_check (a : approx) (bias_rank : option nat) : bool :=
-  match a with ApproxTanh => false | _ => match bias_rank with Some 1%nat => true | _ => false end end.
+Definition bias_gelu_check_old (a : approx) (bias_shape : option (list Z)) : bool :=
+  match a with ApproxTanh => false | _ => match bias_shape with Some [_] => true | _ => false end end.
+Definition bias_gelu_check (a : approx) (bias_shape input_shape : option (list Z)) : bool :=
+  bias_gelu_check_old a bias_shape &&
+  match bias_shape, input_shape with
+  | Some [b], Some ish => match rev ish with last :: _ => Z.eqb last b | [] => false end
+  | _, _ => false
+  end.
 
-Definition bias_gelu_case := (approx * option nat * bool)%type.
+Definition bias_gelu_case := (approx * option (list Z) * option (list Z) * bool)%type.
 Definition bias_gelu_agrees (c : bias_gelu_case) : bool :=
-  let '(a, r, obs) := c in Bool.eqb (bias_gelu_check a r) obs.
+  let '(a, b, i, obs) := c in Bool.eqb (bias_gelu_check a b i) obs.
